@@ -36,6 +36,14 @@ use vcore::{json, Args, Rng, Value};
 static GLOBAL: alloc::Capped = alloc::Capped;
 
 static PANIC_AT: Mutex<String> = Mutex::new(String::new());
+static PANIC_FN: Mutex<String> = Mutex::new(String::new());
+
+/// the panic message reduced to its constant head (up to the first ':', '(' or digit): identifies the
+/// assertion / unwrap independently of the values it prints
+fn msg_head(m: &str) -> String {
+    let end = m.find(|c: char| c == ':' || c == '(' || c.is_ascii_digit()).unwrap_or(m.len());
+    m[..end].trim().chars().take(70).collect()
+}
 
 const WORKERS: usize = 8;
 const ALLOC_BASE: usize = 128 << 20;
@@ -186,9 +194,15 @@ fn gen_sessions(c: &Ctx, cases: &str) -> Vec<Sess> {
 
 // ------------------------------------------------------------------------------------------ one session
 
+/// panic -> (constant head of the message + " @ " + innermost function of a reader crate on the stack, location)
 fn guarded_at<T>(f: impl FnOnce() -> T) -> Result<T, (String, String)> {
     PANIC_AT.lock().unwrap().clear();
-    vcore::guarded(f).map_err(|msg| (msg, PANIC_AT.lock().unwrap().clone()))
+    PANIC_FN.lock().unwrap().clear();
+    vcore::guarded(f).map_err(|msg| (format!("{}@{}", msg_head(&msg), PANIC_FN.lock().unwrap()), PANIC_AT.lock().unwrap().clone()))
+}
+
+fn file_of(at: &str) -> &str {
+    at.rsplit_once(':').map(|x| x.0).unwrap_or(at)
 }
 
 /// everything of the event that does not depend on running the reader
@@ -203,22 +217,33 @@ fn file_event(c: &Ctx, sid: usize, file: usize, api: &str, p: &Plan) -> Option<(
         let flo = f.regions.iter().filter(|x| x.grp == g).map(|x| x.lo).min().unwrap();
         let fhi = f.regions.iter().filter(|x| x.grp == g).map(|x| x.hi).max().unwrap();
         (r.kind, r.lo, r.hi, flo, fhi)
+    } else if p.sel == "abs" {
+        // informational: the region the absolute position lies in
+        match f.regions.iter().find(|x| x.lo <= p.pos && p.pos < x.hi) {
+            Some(r) => (r.kind, r.lo, r.hi, r.lo, r.hi),
+            None => ("none", 0, 0, 0, 0),
+        }
     } else {
         ("none", 0, 0, 0, 0)
     };
+    let lastgrp = kind != "none" && f.regions.last().map(|l| f.regions.iter().any(|x| x.lo == lo && x.grp == l.grp)).unwrap_or(false);
     let ev = json!({
         "ev": "session", "sid": sid, "fmt": f.fmt, "api": api, "file": f.name,
         "src": p.src, "op": p.op, "arg": p.arg, "sel": p.sel, "d": p.d, "fix": p.fix, "r": p.r, "pos": p.pos, "donor": p.donor,
-        "kind": kind, "lo": lo, "hi": hi, "flo": flo, "fhi": fhi,
+        "kind": kind, "lo": lo, "hi": hi, "flo": flo, "fhi": fhi, "lastgrp": lastgrp,
         "baselen": f.bytes.len(), "newlen": a.bytes.len(), "dlo": dlo, "dhi": dhi, "at": a.at, "oldw": a.oldw, "neww": a.neww,
     });
     Some((ev, a.bytes))
 }
 
-fn finish_event(mut ev: Value, outcome: &str, wher: &str, o: Option<&readers::Out>, peak: usize) -> Value {
+fn finish_event(mut ev: Value, outcome: &str, wher: &str, msg: &str, o: Option<&readers::Out>, peak: usize) -> Value {
     let m = ev.as_object_mut().unwrap();
     m.insert("outcome".into(), json!(outcome));
     m.insert("where".into(), json!(wher));
+    m.insert("wfile".into(), json!(file_of(wher)));
+    let (head, func) = msg.split_once('@').unwrap_or((msg, ""));
+    m.insert("msg".into(), json!(head));
+    m.insert("fn".into(), json!(func));
     let none: Vec<Value> = vec![];
     match o {
         Some(o) => {
@@ -253,7 +278,7 @@ fn run_session(c: &Ctx, sid: usize, s: &Sess) -> Option<Value> {
             let r = guarded_at(|| readers::run(f.fmt, api, &bytes, &f.extra));
             let (peak, hit) = alloc::end();
             Some(match r {
-                Err((_, at)) => finish_event(ev, "panic", &at, None, peak),
+                Err((msg, at)) => finish_event(ev, "panic", &at, &msg, None, peak),
                 Ok(o) => {
                     let outcome = if hit > 0 {
                         "alloc"
@@ -262,8 +287,8 @@ fn run_session(c: &Ctx, sid: usize, s: &Sess) -> Option<Value> {
                     } else {
                         o.outcome.as_str()
                     };
-                    let wher = if hit > 0 { format!("request of {hit} bytes") } else if o.runaway { "unbounded output".to_string() } else { String::new() };
-                    finish_event(ev, outcome, &wher, Some(&o), peak)
+                    let wher = if hit > 0 { format!("alloc@{}", alloc::REFUSED_BY.lock().unwrap()) } else if o.runaway { "unbounded output".to_string() } else { String::new() };
+                    finish_event(ev, outcome, "", &wher, Some(&o), peak)
                 }
             })
         }
@@ -272,7 +297,7 @@ fn run_session(c: &Ctx, sid: usize, s: &Sess) -> Option<Value> {
             let r = guarded_at(|| variant::run_value(meta, value));
             let (_, hit) = alloc::end();
             Some(match r {
-                Err((_, at)) => variant::value_event(src, meta, value, "panic", &at, ""),
+                Err((msg, at)) => variant::value_event(src, meta, value, "panic", &format!("{}|{msg}", file_of(&at)), ""),
                 Ok(_) if hit > 0 => variant::value_event(src, meta, value, "alloc", "", ""),
                 Ok(o) => variant::value_event(src, meta, value, o.outcome, "", &o.tok),
             })
@@ -282,7 +307,7 @@ fn run_session(c: &Ctx, sid: usize, s: &Sess) -> Option<Value> {
             let r = guarded_at(|| variant::run_meta(meta));
             let (_, hit) = alloc::end();
             Some(match r {
-                Err((_, at)) => variant::meta_event(src, meta, "panic", &at, &[]),
+                Err((msg, at)) => variant::meta_event(src, meta, "panic", &format!("{}|{msg}", file_of(&at)), &[]),
                 Ok(_) if hit > 0 => variant::meta_event(src, meta, "alloc", "", &[]),
                 Ok(o) => variant::meta_event(src, meta, o.outcome, "", &o.names),
             })
@@ -295,7 +320,7 @@ fn dead_event(c: &Ctx, sid: usize, s: &Sess, outcome: &str, wher: &str) -> Optio
     match s {
         Sess::File { file, api, plan } => {
             let (ev, _) = file_event(c, sid, *file, api, plan)?;
-            Some(finish_event(ev, outcome, wher, None, 0))
+            Some(finish_event(ev, outcome, "", wher, None, 0))
         }
         Sess::VarValue { src, meta, value, .. } => Some(variant::value_event(src, meta, value, outcome, wher, "")),
         Sess::VarMeta { src, meta, .. } => Some(variant::meta_event(src, meta, outcome, wher, &[])),
@@ -371,6 +396,7 @@ fn supervise(args: &Args, mode: &str) {
         let prog = std::fs::read_to_string(format!("{}/prog-{mode}-{w}.txt", args.out)).unwrap_or_default();
         let mut running: Option<usize> = None;
         let mut marker: Option<(char, usize)> = None;
+        let mut by = String::new();
         for l in prog.lines() {
             let mut it = l.split(' ');
             let (t, a, b) = (it.next().unwrap_or(""), it.next().and_then(|x| x.parse::<usize>().ok()), it.next().and_then(|x| x.parse::<usize>().ok()));
@@ -378,9 +404,11 @@ fn supervise(args: &Args, mode: &str) {
                 ("S", Some(k)) => {
                     running = Some(k);
                     marker = None;
+                    by.clear();
                 }
                 ("D", Some(_)) => running = None,
                 ("A", Some(_)) => marker = Some(('A', b.unwrap_or(0))),
+                ("F", _) => by = l[2..].to_string(),
                 ("H", Some(_)) => marker = Some(('H', b.unwrap_or(0))),
                 _ => {}
             }
@@ -391,8 +419,8 @@ fn supervise(args: &Args, mode: &str) {
         };
         use std::os::unix::process::ExitStatusExt;
         let (outcome, wher) = match marker {
-            Some(('A', sz)) => ("alloc", format!("request of {sz} bytes")),
-            Some(('H', ms)) => ("hang", format!("watchdog after {ms} ms")),
+            Some(('A', _)) => ("alloc", format!("alloc@{by}")),
+            Some(('H', ms)) => ("hang", { let _ = ms; "watchdog".to_string() }),
             _ => ("crash", format!("signal {}", st.signal().unwrap_or(0))),
         };
         if let Some(ev) = dead_event(&c, k, &sessions[k], outcome, &wher) {
@@ -457,7 +485,7 @@ fn variant_replay(args: &Args) {
     let cases: Vec<Value> = text.lines().map(|l| serde_json::from_str(l).unwrap()).collect();
     let r = variant::replay(&cases, &|f| match guarded_at(f) {
         Ok((o, t)) => (o, String::new(), t),
-        Err((_, at)) => ("panic".to_string(), at, String::new()),
+        Err((msg, at)) => ("panic".to_string(), format!("{}|{msg}", file_of(&at)), String::new()),
     });
     let mut t = vcore::Trace::create(&args.out, "untrusted-variant-00");
     let n = r.events.len();
@@ -505,6 +533,9 @@ fn main() {
                 let f = f.rsplit("/registry/src/").next().unwrap_or(f);
                 *g = format!("{}:{}", f, l.line());
             }
+        }
+        if let Ok(mut g) = PANIC_FN.try_lock() {
+            *g = alloc::reader_frame(&std::backtrace::Backtrace::force_capture().to_string());
         }
     }));
     match args.driver.as_str() {
